@@ -167,6 +167,20 @@ func (s *Sim) spoilPayout(b types.Block, kind string) types.Block {
 		b.MinerPayouts[0].Value = b.MinerPayouts[0].Value.Add(one)
 	case "payout-1":
 		b.MinerPayouts[0].Value = b.MinerPayouts[0].Value.Sub(one)
+	case "payout-nov1fees", "payout-nov2fees":
+		var fees types.Currency
+		if kind == "payout-nov1fees" {
+			for _, txn := range b.Transactions {
+				for _, f := range txn.MinerFees {
+					fees = fees.Add(f)
+				}
+			}
+		} else {
+			for _, txn := range b.V2Transactions() {
+				fees = fees.Add(txn.MinerFee)
+			}
+		}
+		b.MinerPayouts[0].Value = b.MinerPayouts[0].Value.Sub(fees)
 	case "payout-split":
 		v := b.MinerPayouts[0].Value
 		b.MinerPayouts[0].Value = v.Sub(one)
